@@ -56,18 +56,19 @@ def impl(c):
                 if k in step:
                     T.build(step[k])
         except Exception as e:      # the observable state is not something the constructor returns or accepts: the living
-            out.append((step, None, ("illformed", type(e).__name__, str(e)[:200])))   # object is ill-formed; the history stops
+            out.append((step, None, ("illformed", type(e).__name__, str(e)[:200]), None))   # object is ill-formed; the history stops
             break
         fresh = tierops.impl(dict(step))
         r = tierops.impl(dict(step), objs)
-        out.append((step, r, fresh))
+        post = {k: T.snap(o) for k, o in live.items()}
+        out.append((step, r, fresh, (on, pre, post)))
         if s.get("adopt") and r[0] == "ok" and "result" in objs and hasattr(objs["result"], "entries"):
             live["tier"] = objs["result"]      # go on with the returned copy (it may share state with its source)
     return ("living", out)
 
 
-def oracle(prop_oracle, c, r, judge_ops=None, illformed_fails=False, inside=None):
-    for i, (step, rl, rf) in enumerate(r[1]):
+def oracle(prop_oracle, c, r, judge_ops=None, illformed_fails=False, inside=None, unchanged=False):
+    for i, (step, rl, rf, obs) in enumerate(r[1]):
         if rl is None:
             # judged where the property is about reachable tiers (C05: ILLFORMED_IS_FAILURE); elsewhere a history that left
             # the property's quantifier (well-formed tiers) simply ends
@@ -83,6 +84,16 @@ def oracle(prop_oracle, c, r, judge_ops=None, illformed_fails=False, inside=None
             f = prop_oracle(step, rl)
             if f is not None:
                 return Failure(dict(f.signature, living=True), f"{where}: {f.message}")
+        if unchanged:
+            # C13 on living objects: a copy-returning operation, a query or a FAILED mutation leaves every living object
+            # (receiver and arguments) observably as it was; a successful mutation changes its receiver only
+            on, pre, post = obs
+            mut = step["op"] in ("iinsert", "pinsert", "idelete", "pdelete")
+            for k in pre:
+                if pre[k] != post[k] and not (mut and rl[0] == "ok" and k == on):
+                    return Failure({"clause": "living-object-changed", "op": step["op"], "living": True},
+                                   f"{where}: the call {'failed and' if rl[0] == 'err' else 'returned and'} left the living object "
+                                   f"'{k}' changed: {pre[k]} -> {post[k]}")
         if _canon(rl) != _canon(rf):
             return Failure({"clause": "history-dependence", "op": step["op"], "living": True},
                            f"{where}: on the object with a past the call gave {_short(rl)}, on a fresh object with the same "
@@ -105,14 +116,14 @@ def encode(c, enc):
 
 def tags(c, r):
     out = {"living"}
-    for step, rl, rf in r[1]:
+    for step, rl, rf, _ in r[1]:
         if rl is not None:
             out.add("living:" + step["op"] + (":err" if rl[0] == "err" else ""))
     return out
 
 
 def nontrivial(c, r):
-    return any(rl is not None and rl[0] == "ok" for _, rl, _ in r[1])
+    return any(x[1] is not None and x[1][0] == "ok" for x in r[1])
 
 
 def shrink(c):
@@ -186,7 +197,7 @@ def _done(cur):
     return {k: v for k, v in cur.items() if not k.startswith("_")}
 
 
-def install(g, judge_ops=None, rate=0.12, cap=1500, cap_thorough=12000, illformed_fails=False, only_ops=None, inside=None):
+def install(g, judge_ops=None, rate=0.12, cap=1500, cap_thorough=12000, illformed_fails=False, only_ops=None, inside=None, unchanged=False):
     """wrap a property module's encode/impl/render/oracle/tags/nontrivial/wants_x/shrink/gen so that living cases built
     from its own generated step-wise cases ride along (g = the module's globals())"""
     o_enc, o_impl, o_render, o_oracle = g["encode"], g["impl"], g["render"], g["oracle"]
@@ -195,7 +206,7 @@ def install(g, judge_ops=None, rate=0.12, cap=1500, cap_thorough=12000, illforme
     g["encode"] = lambda c, enc: encode(c, enc) if is_living(c) else o_enc(c, enc)
     g["impl"] = lambda c, *a: impl(c) if is_living(c) else o_impl(c, *a)
     g["render"] = lambda c, r, enc: render(c, r, enc) if is_living(c) else o_render(c, r, enc)
-    g["oracle"] = lambda c, r: oracle(o_oracle, c, r, judge_ops, illformed_fails, inside) if is_living(c) else o_oracle(c, r)
+    g["oracle"] = lambda c, r: oracle(o_oracle, c, r, judge_ops, illformed_fails, inside, unchanged) if is_living(c) else o_oracle(c, r)
     g["tags"] = lambda c, r: tags(c, r) if is_living(c) else o_tags(c, r)
     g["nontrivial"] = lambda c, r: nontrivial(c, r) if is_living(c) else o_nt(c, r)
     g["wants_x"] = lambda c: False if is_living(c) else o_wx(c)
